@@ -42,6 +42,43 @@ def run(tier="quick"):
             chk.note("undecided: " + " | ".join(samples))
         chk.count("undecided_obligations", nund)
     chk.count("helpers_analysed", nf, floor=7)
+    # X2 safe_str replaces exactly the control characters: the test that guards the store of '.' is, as a predicate over the 256
+    # values of a byte, the C locale's control class (0..31 and DEL).  The domain is finite, so the truth table is exact
+    # (la/bytepred.py); a test outside its little language is not decided.
+    from .. import bytepred
+    from ..facts import walk as _walk
+    chk.rule("X2", "safe_str replaces exactly the control characters of the C locale")
+    progx = facts.extract(only=["strings.c"])
+    fs = progx.fn("spiftool_safe_str")
+    nx2 = 0
+    if fs is not None and fs.body is not None and fs.params:
+        sd = fs.params[0]["d"]
+        for x in _walk(fs.body):
+            if x.get("k") != "if":
+                continue
+            dots = [y for y in _walk(x["then"]) if y.get("k") == "assign" and y.get("op") == "=" and X.const_val(y["ch"][1]) == 46
+                    and (X.strip(y["ch"][0]) or {}).get("k") in ("index", "un")]
+            if not dots:
+                continue
+            tgt = X.strip(dots[0]["ch"][0])
+
+            def is_byte(n_, tgt=tgt):
+                s_ = n_
+                return s_.get("k") == tgt.get("k") and s_.get("k") in ("index", "un") and X.render(s_) == X.render(tgt) and not s_.get("tp")
+            try:
+                tab = bytepred.truth_table(x["cond"], is_byte)
+            except bytepred.Undecided as e:
+                chk.note("X2: the test guarding the replacement is not decided (%s)" % e)
+                continue
+            want = {b: (b < 32 or b == 127) for b in range(256)}
+            diff = [b for b in range(256) if tab[b] != want[b]]
+            nx2 += 1
+            chk.ob("X2", fs.name, "replaces-control-characters", not diff, loc=fs.loc(x),
+                   detail="%s replaces a byte by '.' exactly when `%s`; as a class of byte values that differs from the control characters "
+                          "(0..31 and 127) at %s: %s" % (fs.name, X.render(x["cond"])[:50], ", ".join("0x%02x" % b for b in diff[:6]),
+                                                        "these control bytes are left in the text" if diff and want[diff[0]] else "these ordinary bytes are replaced"),
+                   proof="truth table over all 256 byte values equals the C-locale control class")
+    chk.count("class_predicates_decided", nx2)
     # W1 state kept in a narrow integer does not wrap with the length of the input: a local of 8 or 16 bits that a loop over the
     # string steps (x++, x += k) without that loop's condition - or a test guarding the step - bounding it returns to 0 after 256
     # (65536) steps; used as a flag ("have I just written a blank?") it then flips in the middle of a long run
